@@ -89,7 +89,7 @@ class FakeCouchDB:
     # ---- harness interface
     def arm(self, plan=None):
         """plan: {logical request index (0-based, counted from now): fault}
-        fault = ("status", code) | ("garbage",) | ("drop",)"""
+        fault = ("status", code) | ("garbage",) | ("garbage", "empty" | "truncated") | ("drop",)"""
         with self.lock:
             self.plan = dict(plan or {})
             self.n = 0
@@ -197,7 +197,10 @@ class _Handler(BaseHTTPRequestHandler):
             if fault and fault[0] == "status":
                 return self._reply(fault[1], head=head)
             if fault and fault[0] == "garbage":
-                return self._reply(200, raw=b"<html>not json</html>", head=head)
+                # a 2xx answer whose body is not JSON: some text, nothing at all, or a truncated document
+                raw = {"empty": b"", "truncated": b'{"ok": true, "id": "x", "re'}.get(
+                    fault[1] if len(fault) > 1 else "", b"<html>not json</html>")
+                return self._reply(200, raw=raw, head=head)
             # ---- authentication
             if st.user is not None:
                 want = "Basic " + base64.b64encode(("%s:%s" % (st.user, st.password)).encode()).decode()
